@@ -654,7 +654,7 @@ func (a *Act) builtin(ctx *blockCtx, bi *ssa.Builtin, c *ssa.CallCommon, args []
 			for i := 0; i < n; i++ {
 				arr = fmt.Sprintf("(store %s (+ (slc_len %s) %d) (select (slc_arr %s) %d))", arr, s.T, i, e.T, i)
 			}
-			r := Val{T: fmt.Sprintf("(mk_slc %s (+ (slc_len %s) %d))", arr, s.T, n), S: e.S, G: resT}
+			r := Val{T: fmt.Sprintf("((as mk_slc %s) %s (+ (slc_len %s) %d))", e.S, arr, s.T, n), S: e.S, G: resT}
 			nm := g.fresh("app", r.S)
 			g.fact("(= " + nm + " " + r.T + ")")
 			r.T = nm
@@ -1083,6 +1083,10 @@ func (a *Act) ordinalOf(ins ssa.Instruction, name string) int {
 					nm = callName(&x.Call)
 				case *ssa.Send:
 					nm = "send"
+				case *ssa.UnOp:
+					if x.Op == token.ARROW {
+						nm = "recv"
+					}
 				}
 				if nm != "" {
 					by[nm] = append(by[nm], ent{in, in.Pos(), b.Index, i})
